@@ -534,7 +534,9 @@ class categorical_ndarray(np.ndarray):
 
     def _update_categories_and_codes(self):
         if hasattr(self, '_categories'):
-            self._codes = index_lookup(self, self._categories)
+            # Note that index_lookup only works with 1-d arrays
+            codes = index_lookup(np.asarray(self).ravel(), self._categories)
+            self._codes = codes.reshape(self.shape)
         else:
             self._categories, self._codes = unique(self)
             self._categories.setflags(write=False)
